@@ -83,6 +83,10 @@ def fam_blackhole(rng, i):
         "drop_pm": rng.choice([0, 50]), "faults_until_ms": 1500,
         "deadline_ms": 200000,
     }
+    if i % 2 == 1:
+        # the endpoints advertise DIFFERENT idle timeouts: the effective one is the minimum (RFC 9000 10.1)
+        other = rng.choice([x for x in (2000, 5000, 12000, 30000) if x != idle])
+        p[rng.choice(["c.max_idle_ms", "s.max_idle_ms"])] = other
     d = rng.choice([0, 1, 2])
     if forever:
         p["bh"] = f"{start}:100000000:{d}"
